@@ -65,6 +65,13 @@ Record grantfrom := { gf_group : string; gf_kind : string; gf_ns : string }.
 Record grantto := { gt_group : string; gt_kind : string; gt_name : option string }.
 Record grant := { gr_ns : string; gr_from : list grantfrom; gr_to : list grantto }.
 Record nsobj := { n_name : string; n_labels : list (string * string) }.
+(* BackendTLSPolicy: targets are Service names of the policy's namespace *)
+Record btp := {
+  bt_ns : string; bt_name : string; bt_ts : Z; bt_targets : list string; bt_host : string;
+  bt_ca : option string;            (* caCertificateRefs[0]: ConfigMap name in the policy's namespace *)
+  bt_wellknown : bool               (* wellKnownCACertificates: System *)
+}.
+Record cmap := { cm_ns : string; cm_name : string; cm_ok : bool (* has a usable ca.crt *) }.
 
 Record cluster := {
   c_classes : list gclass;
@@ -73,7 +80,9 @@ Record cluster := {
   c_services : list service;
   c_secrets : list secret;
   c_grants : list grant;
-  c_namespaces : list nsobj
+  c_namespaces : list nsobj;
+  c_btps : list btp;
+  c_cms : list cmap
 }.
 
 (* a request as NGINX sees it *)
@@ -96,4 +105,5 @@ Inductive outcome :=
 | ORedirect (code : Z) (scheme : option string) (host : option string) (port : option Z) (path : option pathmod)
 | OProxy (grpc : bool)
          (backends : list (string * Z))    (* upstream name or "invalid-backend-ref", share in hundredths of a percent *)
-         (filters : list rfilter).          (* header / rewrite filters in effect *)
+         (filters : list rfilter)           (* header / rewrite filters in effect *)
+         (tls : option (string * string)).  (* upstream TLS verification: expected server name, trusted CA file *)
